@@ -210,7 +210,7 @@ static void part_init_system(void)
  * every call of every function and counts the ones watched (no change to the stack's sources). */
 #define NWATCH 16
 static void *WatchFn[NWATCH]; static const char *WatchName[NWATCH]; static unsigned WatchCnt[NWATCH], WatchWant[NWATCH]; static int NWatch;
-static unsigned long HookCalls, NInitSys;
+static unsigned long HookCalls, NInitSys, NSysBuf;
 __attribute__((no_instrument_function)) void __cyg_profile_func_enter(void *fn, void *site)
 {
     (void)site; HookCalls++;
@@ -240,8 +240,13 @@ static void part_init_types(void)
         if (depth) { ENT(0x1003, 0, CO_OBJ_____RW, CO_TEMCY_HIST, &hnum); for (int k = 0; k < depth; k++) ENT(0x1003, 1 + k, CO_OBJ_____R_, CO_TEMCY_HIST, &hist[k]); watch(CO_TEMCY_HIST, "CO_TEMCY_HIST", 1u + (unsigned)depth); }
         if (with_sync) { ENT(0x1005, 0, CO_OBJ_____RW, CO_TSYNC_ID, &syncid); ENT(0x1006, 0, CO_OBJ_____RW, CO_TSYNC_CYCLE, &cycle); watch(CO_TSYNC_ID, "CO_TSYNC_ID", 1); watch(CO_TSYNC_CYCLE, "CO_TSYNC_CYCLE", 1); }
         ENT(0x1008, 0, CO_OBJ_____R_, CO_TSTRING, &str); watch(CO_TSTRING, "CO_TSTRING", 1);
+        { static CO_PARA pg; static uint8_t pgram[4], n1010, n1011; n1010 = n1011 = 1;
+          pg.Offset = 0; pg.Size = 4; pg.Start = pgram; pg.Default = NULL; pg.Type = CO_RESET_COM; pg.Value = CO_PARA___E;
+          ENT(0x1010, 0, CO_OBJ_____R_, CO_TPARA_STORE, &n1010); ENT(0x1010, 1, CO_OBJ_____RW, CO_TPARA_STORE, &pg);
+          ENT(0x1011, 0, CO_OBJ_____R_, CO_TPARA_RESTORE, &n1011); ENT(0x1011, 1, CO_OBJ_____RW, CO_TPARA_RESTORE, &pg);
+          watch(CO_TPARA_STORE, "CO_TPARA_STORE", 2); watch(CO_TPARA_RESTORE, "CO_TPARA_RESTORE", 2); }
         if (with_1014 || 1) { ENT(0x1014, 0, CO_OBJ__N__RW, CO_TEMCY_ID, &emcyid); watch(CO_TEMCY_ID, "CO_TEMCY_ID", 1); }
-        if (nhbc) { ENT(0x1016, 0, CO_OBJ_____R_, CO_TUNSIGNED8, &n1016); for (int k = 0; k < nhbc; k++) { hbc[k].NodeId = (uint8_t)(10 + k); hbc[k].Time = (uint16_t)(100 * k); ENT(0x1016, 1 + k, CO_OBJ_____RW, CO_THB_CONS, &hbc[k]); } watch(CO_THB_CONS, "CO_THB_CONS", (unsigned)nhbc); }
+        if (nhbc) { ENT(0x1016, 0, CO_OBJ_____R_, CO_THB_CONS, &n1016); for (int k = 0; k < nhbc; k++) { hbc[k].NodeId = (uint8_t)(10 + k); hbc[k].Time = (uint16_t)(100 * k); ENT(0x1016, 1 + k, CO_OBJ_____RW, CO_THB_CONS, &hbc[k]); } watch(CO_THB_CONS, "CO_THB_CONS", 1u + (unsigned)nhbc); }
         ENT(0x1017, 0, CO_OBJ_____RW, CO_THB_PROD, &hbp); watch(CO_THB_PROD, "CO_THB_PROD", 1);
         { static uint8_t n1018 = 4; static uint32_t ident[4] = { 1, 2, 3, 4 }; ENT(0x1018, 0, CO_OBJ_____R_, CO_TUNSIGNED8, &n1018); for (int k = 0; k < 4; k++) ENT(0x1018, 1 + k, CO_OBJ_____R_, CO_TUNSIGNED32, &ident[k]); }
         ENT(0x1200, 0, CO_OBJ_____R_, CO_TUNSIGNED8, &n1200); ENT(0x1200, 1, CO_OBJ__N__R_, CO_TSDO_ID, &rx); ENT(0x1200, 2, CO_OBJ__N__R_, CO_TSDO_ID, &tx); watch(CO_TSDO_ID, "CO_TSDO_ID", 2);
@@ -265,6 +270,24 @@ static void part_init_types(void)
         NInitSys++;
         if (HookCalls == h0) { printf("stat init_hook_silent 1\n"); return; }   /* not an instrumented build: inconclusive, see m_dict.finish */
         if (CONodeGetErr(&Node) != CO_ERR_NONE) VIOL("init-once/harness-dictionary", "variant %d: node error %d after CONodeInit", var, (int)CONodeGetErr(&Node));
+        /* (e2) buffer access to the system entries: whatever length the application asks for, never more than that is moved.  Source
+         * and destination are heap blocks of exactly that length, so one byte too many is an ASan report (engine dies = violation). */
+        for (int i = 0; i < n; i++) {
+            const CO_OBJ_TYPE *t = root[i].Type;
+            if (t == CO_TUNSIGNED8 || t == CO_TUNSIGNED16 || t == CO_TUNSIGNED32 || t == CO_TSTRING || t == CO_TDOMAIN) continue;
+            for (uint32_t len = 1; len <= 6; len++) {
+                uint8_t *b = malloc(len); memset(b, 0xEE, len);
+                CO_ERR e = CODictRdBuffer(&Node.Dict, root[i].Key, b, len);
+                if (e == CO_ERR_NONE && len <= 4) { int moved = 0; for (uint32_t k = 0; k < len; k++) if (b[k] != 0xEE) moved = 1;
+                    uint32_t sz = COObjGetSize(&root[i], &Node, 0);
+                    if (!moved && sz == 4 && len < 4 && 0) VIOL("buffer/system-type", "%04x:%u read of %u bytes reported success without moving a byte", CO_GET_IDX(root[i].Key), CO_GET_SUB(root[i].Key), len); }
+                free(b); NSysBuf++;
+                b = malloc(len); memset(b, 0, len);
+                (void)CODictWrBuffer(&Node.Dict, root[i].Key, b, len);
+                free(b); NSysBuf++;
+                Node.Error = CO_ERR_NONE;
+            }
+        }
         for (int i = 0; i < nw; i++)
             if (WatchFn[i] != NULL && WatchCnt[i] != WatchWant[i])
                 VIOL("init-once/system-type", "dictionary variant %d (%d entries, node error %d): Init of %s ran %u times for %u entries of that type", var, n, (int)CONodeGetErr(&Node), WatchName[i], WatchCnt[i], WatchWant[i]);
@@ -484,7 +507,7 @@ int main(int argc, char **argv)
     if (parts & 16) part_buffer(full);
     if (parts & 32) part_chunked();
     if (parts & 64) part_typed_stream();
-    printf("stat init_system_dictionaries %lu\nstat init_hook_calls %lu\n", NInitSys, HookCalls);
+    printf("stat init_system_dictionaries %lu\nstat init_hook_calls %lu\nstat system_buffer_cases %lu\n", NInitSys, HookCalls, NSysBuf);
     printf("stat dictionaries %lu\nstat lookups %lu\nstat lookups_hit %lu\nstat lookups_miss %lu\nstat init_dictionaries %lu\nstat typed_cases %lu\nstat buffer_cases %lu\nstat chunked_cases %lu\nstat violations %lu\n",
            NDict, NLook, NHit, NMiss, NInitDict, NTyped, NBuf, NChunk, NViol);
     printf("sample small-scope: all 256 subsets of an 8-key universe x 21 probe keys x 4 flag bytes, array of exactly n+1 entries\n");
